@@ -74,6 +74,7 @@ def run(ctx: Context) -> None:
     ctx.rule(r5_siblings)
     ctx.rule(r6_filters)
     ctx.rule(dtype_rule)
+    ctx.rule(late_binding_rule)
     # non-negativity of the MSM objective rests on its shape: g.g, or g.W.g with W = diag(1 / mean_e (deviation)^2) - a reciprocal of a mean of squares is positive
     # by construction, an algebraically "equal" expansion r^2 - 2 r E[x] + E[x^2] is not (cancellation can make it zero or negative).  Shared with C07-R3.
     from . import c07
@@ -464,3 +465,21 @@ def _rename(e: ast.expr, old: str, new: str) -> ast.expr:
         def visit_Name(self, node: ast.Name):  # noqa: N802
             return ast.Name(id=new, ctx=node.ctx) if node.id == old else node
     return T().visit(ast.parse(src(e), mode="eval").body)
+
+
+# ---------------------------------------------------------------------------------------------- closures built per coordinate
+def late_binding_rule(ctx: Context) -> None:
+    """A per-coordinate callable (filter wrapper, weighting function) built in a loop or comprehension must bind the coordinate's own value when it is
+    built: a closure that reads the iteration variable when it *runs* sees the last coordinate's value for every coordinate, so filters / weights are no
+    longer applied coordinate by coordinate (and permuting the coordinates changes the value)."""
+    from ..util import late_binding_closures
+    n_f = 0
+    for f in ctx.prog.all_functions():
+        if not (f.module.name.startswith("black_it.loss_functions") or f.module.name == "black_it.utils.time_series"):
+            continue
+        n_f += 1
+        for c, var, loop in late_binding_closures(f):
+            ctx.fail("R7.late-binding", f"{f.qualname.split(':')[1]}:{var}", f"`{src(c)[:70]}` is created once per iteration but looks `{var}` up when it runs: every one of the callables "
+                     f"then uses the value `{var}` had in the last iteration (bind it with a default argument or functools.partial)", f, c)
+    ctx.ok("R7.late-binding", "losses:closures", f"no closure of {n_f} loss / filter functions captures an iteration variable late")
+    ctx.floor("R7", "loss / filter functions scanned for late-binding closures", n_f, 30)
